@@ -452,6 +452,8 @@ class Interp:
             if var is None or rng_init is None:
                 raise AnalysisBroken('unsupported range-for at %s' % pos(n))
             seq = self.expr(rng_init, env)
+            if isinstance(seq, tuple) and seq and seq[0] == 'str':
+                seq = Vec([const(8, True, ord(ch_) if ord(ch_) < 128 else ord(ch_) - 256) for ch_ in seq[1]])      # the characters of a string
             if not isinstance(seq, Vec):
                 raise AnalysisBroken('range-for over %r at %s' % (seq, pos(n)))
             for item in list(seq.items):
@@ -708,6 +710,14 @@ class Interp:
                 return const(ti[0], ti[1], cv)
             if r.get('kind') == 'VarDecl' and r.get('id') not in self.idx.by_id:
                 return ('global', r.get('name'))       # an object outside the repository (std::cout, std::cerr, ...)
+            gd = self.idx.by_id.get(r.get('id'))
+            gi = [c_ for c_ in children(gd) if 'kind' in c_] if isinstance(gd, dict) and gd.get('kind') == 'VarDecl' else []
+            if gi and ('const' in qt(gd) or gd.get('constexpr')):
+                # a constant table / value at namespace, class or function-static scope: its initialiser
+                memo = self.__dict__.setdefault('_const_globals', {})
+                if r['id'] not in memo:
+                    memo[r['id']] = self.expr(gi[-1], {'this': None, 'locals': {}})
+                return memo[r['id']]
             raise AnalysisBroken('reference to unbound %s %s at %s' % (r.get('kind'), r.get('name'), pos(n)))
         if k == 'MemberExpr':
             return self.load(self.lval(n, env), env)
